@@ -23,6 +23,7 @@ Implementation: Simple text extraction and pattern matching
 
 from src.core.base import BaseLintContext
 from src.core.types import Violation
+from src.linter_config.directive_markers import source_lines
 
 
 def get_violation_line(violation: Violation, context: BaseLintContext) -> str | None:
@@ -38,7 +39,7 @@ def get_violation_line(violation: Violation, context: BaseLintContext) -> str | 
     if not context.file_content:
         return None
 
-    lines = context.file_content.splitlines()
+    lines = source_lines(context.file_content)
     if violation.line <= 0 or violation.line > len(lines):
         return None
 
